@@ -23,7 +23,15 @@ RULE = ('history i: natoms class (1,2,3,4-6,7-9), initial property sets (6 schem
         'per-atom shapes (),(3,),(3,3)), constructor variant, cell kind and System options rotate with i; the first operation is '
         'KINDS[i % 20], the remaining kinds and all index / value / property-set classes come from a generator seeded by i only '
         '(same class structure for every seed); numbers come from the seeded case generator.  A history is non-trivial when it '
-        'ran >= 8 operations of which >= 3 changed stored state; distinct = distinct fingerprint of the op list.')
+        'ran >= 8 operations of which >= 3 changed stored state; distinct = distinct fingerprint of the op list.  '
+        'Group defaults (round 4): case i builds a System by SYSTEM_PATHS[i % 9] and an Atoms by ATOMS_PATHS[i % 11] that leave atype and/or '
+        'pos (and box, pbc, symbols, masses) to the constructor defaults (natoms 1,2,1,3,5 by i % 5), plus untouched witnesses built the '
+        'same way; 3 forced in-place edits EDIT_FORMS[...] (19 forms: attribute / view / prop / indexed / raw numpy / per-type / Atoms '
+        'assignment / System-level, of pos and atype) and 7 further operations follow, all live objects and the witnesses are re-judged '
+        'after every step, and afterwards objects built from the defaults again (constructors, extend / atoms_extend by count, deepcopy, '
+        'indexing) are judged.  Group arguments: 9 classes of a caller keeping, overwriting and reusing the objects it handed in '
+        '(safecopy constructors, prop / atoms_prop / view sets, lists and prop= dictionary given twice) x natoms 1,2,3,5.  Values are '
+        'handed over as ndarray, list, tuple, python scalar or float32 / int32 / int16 / int8 arrays (one draw per value).')
 ASSUMPTIONS = [
     'a property name keeps one dtype kind and per-atom shape within a history (extend/assign between objects with the same name but '
     'different per-atom shapes is outside the domain)',
@@ -37,10 +45,18 @@ ASSUMPTIONS = [
     'float values are compared with |d| <= 1e-9*(1+|expected|) (only the scale=True operations compute anything); all else exactly',
     'an integer index is in range; scalar-into-vector-property and a 1-atom Atoms assigned to several atoms may be refused or '
     'broadcast (both accepted, state must match whichever happened)',
+    'direct setting is documented: a NEW property assigned through the attribute / view (and constructor keywords without safecopy) may '
+    'store the very array handed in, so those arrays are not overwritten by the harness; everything else handed in (values for existing '
+    'properties, prop(key, value=), atoms_prop(key, value=), indexed writes, per-type values, assigned Atoms, safecopy=True constructors) '
+    'is overwritten afterwards and must not reach storage',
+    'arrays handed out by the copying accessors are overwritten by the harness and kept (last 8): no later operation may change them',
+    'pos is a float property whatever is handed to the constructor (documented: list/ndarray of float)',
+    'pickling of Atoms is outside the statement (Atoms cannot be pickled at all: PropertyDict.__init__ needs its host)',
 ]
 CONFIG = {'quick': {'shards': 8, 'seeds': 1}, 'thorough': {'shards': 16, 'seeds': 3}}
 
 MAXPOOL = 6
+KEEP = 8
 READONLY = ('prop_get', 'prop_get_atoms', 'extend_int', 'extend_atoms', 'atoms_extend', 'getitem', 'deepcopy', 'df', 'atoms_prop_get')
 
 
@@ -258,6 +274,8 @@ class Runner:
     def __init__(self, ctx, am, chk):
         self.ctx, self.rec, self.am, self.chk = ctx, ctx.rec, am, chk
         self.pool = []
+        self.extra = []          # further live objects (default-built witnesses) whose storage nothing handed out may share
+        self.kept = []           # arrays handed out by copying accessors: (array, its values when last seen, label)
         self.changed = 0
 
     # -- real/model reconciliation ------------------------------------------
@@ -299,15 +317,47 @@ class Runner:
             rec.fail('an in-domain operation must not raise', f'{label}:exception', exception=exc, where=tb, ops=ops)
         raise Diverged()
 
+    def stored(self):
+        return [arr for e in self.pool + self.extra for arr in arrays_of(e.real)]
+
     def noalias(self, x, label, what, extra=()):
-        arrs = [arr for e in self.pool for arr in arrays_of(e.real)] + list(extra)
+        arrs = self.stored() + list(extra)
         xs = list(x.view.values()) if hasattr(x, 'prop_atype') else [x]
         bad = [i for i, y in enumerate(xs) if shares(y, arrs)]
         self.rec.check(not bad, f'{what} does not share memory with any stored array', f'{label}:alias', ops=self.chk.ops)
         n = 0
         for y in xs:
-            n += bool(scribble(y))
+            if scribble(y):
+                n += 1
+                self.kept.append((y, y.copy(), label))
+        del self.kept[:-KEEP]
         self.rec.count('scribbled-results', n)
+
+    def check_kept(self):
+        """Arrays handed out earlier belong to the caller: no later operation may change them."""
+        bad = sorted({lab for y, was, lab in self.kept if not np.array_equal(y, was)})
+        self.rec.count('kept-results-rejudged', len(self.kept))
+        for lab in bad:
+            self.rec.fail('an array handed out by a copying accessor is not changed by later operations', f'{lab}:result-overwritten',
+                          ops=self.chk.ops)
+        if bad:
+            self.kept = [(y, y.copy(), lab) for y, was, lab in self.kept]
+
+    def argument(self, val, label, allowed=False):
+        """The caller goes on using (and overwriting) the array it handed in: storage must not follow."""
+        vals = list(val.view.values()) if hasattr(val, 'prop_atype') else [val]
+        vals = [v for v in vals if isinstance(v, np.ndarray) and v.ndim >= 1 and v.size]
+        if not vals:
+            return
+        if allowed:                       # documented direct setting of a new key: the array may be the storage itself
+            self.rec.count('arguments-direct-setting-allowed')
+            return
+        bad = [i for i, v in enumerate(vals) if shares(v, self.stored())]
+        self.rec.check(not bad, 'the stored values do not share memory with the value handed in', f'{label}:argument-alias', ops=self.chk.ops)
+        n = 0
+        for v in vals:
+            n += bool(scribble(v))
+        self.rec.count('scribbled-arguments', n)
 
     def add(self, ent):
         self.pool.append(ent)
@@ -336,10 +386,13 @@ class Runner:
                     a.view[key] = val
                 else:
                     a.prop(key=key, value=val)
+            existed = key in ma.keys
             st, _, _ = self.both(label, real, lambda: ma.set(key, op['value']), may=op.get('may_refuse', False))
             rec.count(f'class:{kind}:{op["cls"]}')
+            rec.count('class:given:' + O.given_class(op['value']))
             if st == 'ok':
                 self.changed += 1
+                self.argument(val, label, allowed=not existed and via != 'prop')
             return label, new
 
         if kind == 'prop_get':
@@ -352,6 +405,11 @@ class Runner:
             rec.check(same_values(got, exp) and M.kindclass(np.asarray(got).dtype) == M.kindclass(exp.dtype),
                       'prop(key[, index]) returns the model values', f'{label}:values', got=got, expected=exp, ops=self.chk.ops)
             self.noalias(got, label, 'the array returned by prop(key[, index])')
+            # the caller has overwritten what it was handed; the same read again gives the stored values (and leaves the first result alone)
+            again = a.prop(key=key, a_id=index) if op['icls'] == 'a_id' else a.prop(key=key, index=index)
+            rec.check(same_values(again, exp), 'the same read repeated returns the same values', f'{label}:repeat', got=again, expected=exp,
+                      ops=self.chk.ops)
+            rec.count('repeated-reads')
             rec.count(f'class:index:{op["icls"]}')
             return label, new
 
@@ -367,14 +425,23 @@ class Runner:
             rec.count(f'class:index:{op["icls"]}')
             return label, new
 
-        if kind == 'prop_write':
-            label = 'prop_write'
+        if kind in ('prop_write', 'raw_write'):
+            label = kind
             key, index = op['key'], op['index']
             val = fresh(op['value'])
-            self.both(label, lambda: a.prop(key=key, index=index, value=val), lambda: ma.write(key, index, op['value']))
+            if kind == 'raw_write':               # atoms.<p>[index] = value: numpy write through the mirrored attribute
+
+                def real():
+                    getattr(a, key)[index] = val
+            else:
+                real = lambda: a.prop(key=key, index=index, value=val)
+            st, _, _ = self.both(label, real, lambda: ma.write(key, index, op['value']))
             rec.count(f'class:index:{op["icls"]}')
-            rec.count(f'class:prop_write:{op["vcls"]}')
+            rec.count(f'class:{kind}:{op["vcls"]}')
+            rec.count('class:given:' + O.given_class(op['value']))
             self.changed += 1
+            if st == 'ok':
+                self.argument(val, label)
             return label, new
 
         if kind == 'assign':
@@ -412,6 +479,8 @@ class Runner:
             st, _, _ = self.both(label, real, model, may=op.get('may_refuse', False))
             if via != 'atoms_prop_scale':
                 self.chk.atoms(o, mo, label, 'operand')
+            if st == 'ok':
+                self.argument(o, label)
             rec.count(f'class:assign:{op["ncls"]}:{op["scls"]}')
             rec.count(f'class:index:{op["icls"]}')
             if st == 'ok':
@@ -431,8 +500,10 @@ class Runner:
                 if op['cls'] == 'new-vector' and ma.natoms == 3:
                     rec.count('class:prop_atype(atype):new-vector:natoms=3')
             rec.count(f'class:{kind}:{op["cls"]}')
+            rec.count('class:given:' + O.given_class(op['value']))
             if st == 'ok':
                 self.changed += 1
+                self.argument(val, label)
             return label, new
 
         if kind == 'extend_int':
@@ -500,6 +571,9 @@ class Runner:
                 ra = r.atoms if sysop else r
                 rec.check(not any(shares(y, arrays_of(a) + oarrs) for y in ra.view.values()),
                           'the new object does not share per-atom storage with the operands', f'{label}:alias', ops=self.chk.ops)
+                if sysop:
+                    rec.check(not np.shares_memory(r.pbc, s.pbc), 'a new System has its own periodic flags (an element-wise write to one does not reach the other)',
+                              f'{label}:pbc-alias', ops=self.chk.ops)
                 new.append(Ent('system' if sysop else 'atoms', r, mr, kind))
                 new[-1].special = special
             return label, new
@@ -518,6 +592,10 @@ class Runner:
             rec.count('observed:getitem-shares-storage' if any(shared.values()) else 'observed:getitem-copies')
             mr = e.model.subsystem(index, shared) if via == 'atoms_ix' else ma.subset(index, shared)
             rec.check(snap_equal(before, snap(e.real)), 'indexing leaves its operand unchanged', f'{label}:operand', ops=self.chk.ops)
+            if via == 'atoms_ix':
+                rec.check(not np.shares_memory(r.pbc, e.real.pbc), 'a new System has its own periodic flags (an element-wise write to one does not reach the other)',
+                          f'{label}:pbc-alias', ops=self.chk.ops)
+                rec.count('pbc-alias:judged')
             rec.count(f'class:index:{op["icls"]}')
             rec.count('agree:performed')
             if ra.natoms == 0:
@@ -533,7 +611,7 @@ class Runner:
             st, r, mr = self.both(label, lambda: copy.deepcopy(e.real), lambda: e.model.copy(), inplace=False)
             rec.check(snap_equal(before, snap(e.real)), 'deepcopy leaves its operand unchanged', f'{label}:operand', ops=self.chk.ops)
             ra = r.atoms if e.typ == 'system' else r
-            arrs = [arr for x in pool for arr in arrays_of(x.real)]
+            arrs = self.stored()
             rec.check(not any(shares(y, arrs) for y in ra.view.values()), 'a deep copy shares no per-atom storage', f'{label}:alias', ops=self.chk.ops)
             if e.typ == 'system':
                 rec.check(r.atoms_ix is not e.real.atoms_ix, 'a deep-copied System has its own indexer', f'{label}:alias', ops=self.chk.ops)
@@ -556,7 +634,7 @@ class Runner:
                       f'{label}:columns', got=list(df.columns), expected=list(table), ops=self.chk.ops)
             bad = [c for c in table if c in df.columns and not same_values(df[c].to_numpy(), table[c])]
             rec.check(not bad, 'table values equal the model', f'{label}:values', columns=bad, ops=self.chk.ops)
-            arrs = [arr for x in pool for arr in arrays_of(x.real)]
+            arrs = self.stored()
             al = []
             for c in df.columns:
                 col = df[c].to_numpy()
@@ -602,6 +680,10 @@ class Runner:
                 rec.check(same_values(got, exp), 'atoms_prop(key[, index][, scale]) returns the model values', f'{label}:values',
                           got=got, expected=exp, ops=self.chk.ops)
                 self.noalias(got, label, 'the array returned by atoms_prop')
+                again = s.atoms_prop(**kw)
+                rec.check(same_values(again, exp), 'the same read repeated returns the same values', f'{label}:repeat', got=again, expected=exp,
+                          ops=self.chk.ops)
+                rec.count('repeated-reads')
             rec.count(f'class:index:{op["icls"]}')
             return label, new
 
@@ -622,9 +704,12 @@ class Runner:
                     ma.set(key, v)
                 else:
                     ma.write(key, index, v)
-            self.both(label, lambda: s.atoms_prop(**kw), model)
+            st, _, _ = self.both(label, lambda: s.atoms_prop(**kw), model)
             rec.count(f'class:index:{op["icls"]}')
+            rec.count('class:given:' + O.given_class(op['value']))
             self.changed += 1
+            if st == 'ok':
+                self.argument(val, label)
             return label, new
 
         if kind == 'symbols_set':
@@ -723,6 +808,95 @@ def initial(am, rng, i):
 
 def compact(op):
     return {k: v for k, v in op.items()}
+
+
+# ---------------------------------------------------------------------------
+# objects built from the constructor DEFAULTS (group 'defaults'): whatever one instance does, the defaults every other
+# instance starts from -- before or after -- are atype 1, pos (0,0,0), no further property, no symbols / masses, pbc TTT
+# ---------------------------------------------------------------------------
+PROPS_ONLY = {'charge': ('float', ()), 'vel': ('float', (3,)), 'tag': ('str', ())}
+
+
+def default_atoms(am, path, rng, n):
+    """(real Atoms, model, description) of an Atoms built by ``path`` leaving atype and/or pos to the defaults."""
+    kw, how = {}, {}
+    if path in ('Atoms()', 'Atoms(model=default)'):
+        mkw, mn = {}, 1
+    elif path in ('Atoms(natoms=n)', 'Atoms(natoms=n,safecopy)'):
+        kw = dict(natoms=n)
+        if path.endswith('safecopy)'):
+            kw['safecopy'] = True
+        mkw, mn = {}, n
+    elif path in ('Atoms(pos=one)', 'Atoms(pos=int-list)'):
+        p = np.round(rng.uniform(-5, 5, 3), 4) if path == 'Atoms(pos=one)' else rng.integers(-5, 6, 3)
+        kw = dict(pos=p.copy() if path == 'Atoms(pos=one)' else [int(x) for x in p])
+        if n > 1:
+            kw['natoms'] = n
+        mkw, mn = dict(pos=np.asarray(p, float).reshape(1, 3)), n
+    elif path == 'Atoms(pos=many)':
+        p = np.round(rng.uniform(-5, 5, (n, 3)), 4)
+        kw, mkw, mn = dict(pos=p.copy()), dict(pos=p), n
+    elif path == 'Atoms(atype=scalar)':
+        kw, mkw, mn = dict(natoms=n, atype=2), dict(atype=2), n
+    elif path == 'Atoms(atype=many)':
+        t = rng.integers(1, 4, n)
+        kw, mkw, mn = dict(atype=t.copy() if n % 2 else [int(x) for x in t]), dict(atype=t), n
+    elif path in ('Atoms(props-only)', 'Atoms(prop={props})'):
+        d = {k: O.gen_value(rng, kc, shape, [1, n][j % 2]) for j, (k, (kc, shape)) in enumerate(PROPS_ONLY.items())}
+        mkw, mn = d, n
+        if path == 'Atoms(props-only)':
+            kw = dict(natoms=n, **{k: fresh(v) for k, v in d.items()})
+        else:
+            kw = dict(natoms=n, prop={k: fresh(v) for k, v in d.items()})
+    else:
+        raise ValueError(path)
+    how = dict(path=path, natoms=mn, kwargs={k: v for k, v in kw.items()})
+    if path == 'Atoms(model=default)':
+        a = am.Atoms(model=am.Atoms().model())
+    else:
+        a = am.Atoms(**kw)
+    return a, M.MAtoms.build(mn, **mkw), how
+
+
+def default_system(am, path, rng, n, i):
+    """(real System, model, description, [further live objects]) of a System built by ``path``."""
+    extra = []
+    I3, O3 = np.identity(3), np.zeros(3)
+    vects, origin, pbc, syms, masses, scale = I3, O3, (True, True, True), None, None, False
+    kw = {}
+    ma = M.MAtoms.build(1)
+    if path == 'System()':
+        pass
+    elif path == 'System(atoms=Atoms())':
+        kw = dict(atoms=am.Atoms())
+    elif path == 'System(atoms=Atoms(natoms=n))':
+        kw = dict(atoms=am.Atoms(natoms=n))
+        ma = M.MAtoms.build(n)
+    elif path in ('System(box)', 'System(box,scale)'):
+        cell = cells.gen_cell(rng, cells.KINDS[i % len(cells.KINDS)], cells.ORIGINS[(i // 2) % 2], 1.0)
+        vects, origin = cell['vects'], cell['origin']
+        kw = dict(box=am.Box(vects=vects, origin=origin))
+        if path.endswith('scale)'):
+            kw['scale'] = scale = True
+    elif path == 'System(symbols,masses)':
+        syms, masses = ['Aa', 'Bb'][:1 + i % 2], [float(np.round(rng.uniform(1, 100), 2))]
+        kw = dict(symbols=fresh(syms), masses=fresh(masses))
+    elif path == 'System(atoms=Atoms(pos=one))':
+        a, ma, _ = default_atoms(am, 'Atoms(pos=one)', rng, n)
+        kw = dict(atoms=a)
+    elif path == 'System(atoms,safecopy)':
+        a, ma0, _ = default_atoms(am, 'Atoms(natoms=n)', rng, n)
+        kw = dict(atoms=a, safecopy=True)
+        ma = ma0.copy()
+        extra.append(Ent('atoms', a, ma0, 'safecopied-original'))
+    elif path == 'System(pbc)':
+        pbc = cells.PBCS[1 + i % 7]
+        kw = dict(pbc=pbc)
+    else:
+        raise ValueError(path)
+    s = am.System(**kw)
+    ms = M.MSystem(ma, vects, origin, pbc, symbols=syms, masses=masses, scale=scale)
+    return s, ms, dict(path=path, natoms=ma.natoms, vects=vects, origin=origin, pbc=pbc, symbols=syms, masses=masses), extra
 
 
 REACH = [
@@ -831,6 +1005,7 @@ def run(ctx):
             for e in run_.pool:
                 chk.ent(e, label, 'target' if e is tgt else 'bystander')
             rec.count('full-comparisons', len(run_.pool))
+            run_.check_kept()
             if rec.n_violations > v1:
                 aborted = True
                 break
@@ -851,6 +1026,245 @@ def run(ctx):
 
     rec.count('distinct-consecutive-op-kind-pairs(summed over workers)', len(pairs))
     rec.floor('distinct-consecutive-op-kind-pairs(summed over workers)', 1000)
+
+    # default-built objects: state leaking between instances ------------------------------------------
+    LEFT = {'Atoms()': 'atype,pos', 'Atoms(natoms=n)': 'atype,pos', 'Atoms(pos=one)': 'atype', 'Atoms(pos=many)': 'atype',
+            'Atoms(pos=int-list)': 'atype', 'Atoms(atype=scalar)': 'pos', 'Atoms(atype=many)': 'pos', 'Atoms(props-only)': 'atype,pos',
+            'Atoms(prop={props})': 'atype,pos', 'Atoms(model=default)': '', 'Atoms(natoms=n,safecopy)': 'atype,pos',
+            'System(atoms=Atoms(pos=one))': 'atype'}
+    nA, nS = len(O.ATOMS_PATHS), len(O.SYSTEM_PATHS)
+    for i in ctx.cases('defaults', ctx.pick(396, 3960)):
+        rng = ctx.rng
+        steps, crng = O.plan_defaults(i)
+        apath, spath, n = O.ATOMS_PATHS[i % nA], O.SYSTEM_PATHS[i % nS], O.DEFAULT_NATOMS[i % 5]
+        chk = Checker(rec, am)
+        run_ = Runner(ctx, am, chk)
+        init = dict(atoms_path=apath, system_path=spath, n=n)
+        chk.ops = [{'init': init}]
+        rec.count('class:default-path:' + apath)
+        rec.count('class:default-path:' + spath)
+
+        def witnesses(tag):
+            """Objects built from the defaults (and a second instance by the paths of this case)."""
+            out = []
+            for path in ('System()', spath):
+                s_, ms_, _, ex_ = default_system(am, path, rng, n, i)
+                out.append(Ent('system', s_, ms_, f'{tag}:{path}'))
+                out.extend(ex_)
+            for path, n_ in (('Atoms()', 1), (apath, n), ('Atoms(natoms=n)', O.DEFAULT_NATOMS[(i + 1) % 5])):
+                a_, ma_, _ = default_atoms(am, path, rng, n_)
+                out.append(Ent('atoms', a_, ma_, f'{tag}:{path}'))
+            return out
+        try:
+            s, ms, hows, extra = default_system(am, spath, rng, n, i)
+            a, ma, howa = default_atoms(am, apath, rng, n)
+            init.update(system=hows, atoms=howa)
+            run_.pool = [Ent('system', s, ms, 'S'), Ent('atoms', a, ma, 'A')]
+            run_.extra = extra + witnesses('before')
+        except Exception as ex:
+            rec.fail('Atoms / System can be built from the constructor defaults', 'defaults-init:exception', exception=ex, ops=chk.ops)
+            rec.case(('defaults', apath, spath), nontrivial=False, fp=fingerprint(i))
+            continue
+        v0 = rec.n_violations
+        for e in run_.pool + run_.extra:
+            chk.ent(e, 'defaults-init', 'target')
+        done, aborted = 0, rec.n_violations > v0
+        for j, step in enumerate(steps):
+            if aborted:
+                break
+            views = [(e.typ, e.model) for e in run_.pool]
+            forced = isinstance(step, tuple)
+            op = O.forced_edit(step[1], i + j, crng, rng, views) if forced else O.make_op(step, crng, rng, views)
+            if op['op'] == 'extend_int' and step == 'extend_int':
+                op['n'] = [1, 2, 1, 3][i % 4]
+            if op['op'] == 'atoms_extend' and step == 'atoms_extend' and j == 8:
+                op = {'op': 'atoms_extend', 'slot': 0, 'vcls': 'int', 'n': [1, 1, 2][i % 3], 'scale': False, 'safecopy': bool(i % 2), 'scls': 'none'}
+            chk.ops.append(op)
+            kind = op['op']
+            readonly = kind in READONLY
+            v0 = rec.n_violations
+            try:
+                label, new = run_.step(op)
+            except Diverged:
+                if readonly:
+                    rec.count('ops-diverged-readonly')
+                    continue
+                aborted = True
+                break
+            except M.OutOfDomain as ex:
+                rec.count('harness:out-of-domain-op')
+                rec.fail('harness: the generator produced an op the model gives no meaning to', 'harness:out-of-domain', error=str(ex), ops=chk.ops)
+                aborted = True
+                break
+            except Exception as ex:
+                import traceback
+                rec.fail('results of the real operation can be examined by the monitors', f'{kind}:monitor-exception',
+                         exception=ex, where=traceback.format_exc()[-1200:], ops=chk.ops)
+                aborted = True
+                break
+            done += 1
+            rec.count('ops')
+            rec.count('op:' + label)
+            if forced and run_.phase != 'refused':
+                tm = run_.pool[op['slot']].matoms
+                left = LEFT.get(spath if op['slot'] == 0 else apath, 'atype,pos')
+                touched = ['atype', 'pos'] if kind == 'assign' else [op['key']]
+                rec.count('class:default-edit:' + '/'.join(str(x) for x in O.EDIT_FORMS[step[1]][:3]))
+                if any(k in left.split(',') for k in touched):
+                    rec.count('defaults:in-place-edit-of-a-defaulted-property:' + ('natoms=1' if tm.natoms == 1 else 'natoms>1'))
+            if rec.n_violations > v0 and not readonly:
+                aborted = True
+                break
+            v1 = rec.n_violations
+            if run_.phase == 'refused':
+                label = label + ':refused'
+            tgt = run_.pool[op['slot']]
+            for e in run_.pool:
+                chk.ent(e, label, 'target' if e is tgt else 'bystander')
+            for e in run_.extra:                      # untouched instances built from the same defaults
+                chk.ent(e, label, 'bystander')
+            rec.count('full-comparisons', len(run_.pool))
+            rec.count('defaults:witness-comparisons', len(run_.extra))
+            run_.check_kept()
+            if rec.n_violations > v1:
+                aborted = True
+                break
+            for e in new:
+                chk.ent(e, label, 'result', getattr(e, 'special', None))
+                if rec.n_violations > v1:
+                    rec.count('results-dropped')
+                    break
+                run_.add(e)
+                rec.count('results-kept')
+        if aborted:
+            rec.count('histories-aborted')
+        else:
+            # whatever happened to the instances above, what is built from the defaults NOW is still the defaults
+            v1 = rec.n_violations
+            try:
+                after = witnesses('after')
+                spec = O.atoms_spec(rng, [2, 3, 1][i % 3], ['charge', 'vel'][:i % 3], maxtype=2)
+                k = [1, 2, 1, 3][i % 4]
+                big, mbig = build_atoms(am, spec), build_matoms(spec)
+                after.append(Ent('atoms', big.extend(k), mbig.extend(k), 'after:explicit.extend(int)'))
+                sbig = am.System(atoms=build_atoms(am, spec), symbols=['Aa', 'Bb'])
+                msbig = M.MSystem(build_matoms(spec), np.identity(3), np.zeros(3), symbols=['Aa', 'Bb'])
+                after.append(Ent('system', sbig.atoms_extend(k), msbig.atoms_extend(k), 'after:explicit.atoms_extend(int)'))
+                d0 = am.Atoms()
+                after.append(Ent('atoms', copy.deepcopy(d0), M.MAtoms.build(1), 'after:deepcopy(Atoms())'))
+                after.append(Ent('atoms', d0[0], M.MAtoms.build(1), 'after:Atoms()[0]'))
+            except Exception as ex:
+                rec.fail('Atoms / System can be built from the constructor defaults', 'defaults-after:exception', exception=ex, ops=chk.ops)
+                after = []
+            for e in after:
+                chk.ent(e, 'defaults-' + e.name, 'result')
+            rec.count('defaults:built-after-comparisons', len(after))
+            if rec.n_violations == v1:
+                rec.count('defaults:histories-completed')
+        rec.case(('defaults', apath, spath, n), nontrivial=done >= 6 and run_.changed >= 3,
+                 fp=fingerprint([compact(o) for o in chk.ops[1:]], i))
+
+    # the caller keeps (and reuses) the objects it handed in ------------------------------------------
+    AR = ['Atoms(safecopy)', 'Atoms(safecopy)-twice', 'System(atoms,safecopy)', 'prop(key,value)-new', 'atoms_prop(key,value)-new',
+          'view-existing', 'Atoms(lists)-twice', 'Atoms(prop=dict)-twice', 'atoms_extend(safecopy)']
+    for i in ctx.cases('arguments', ctx.pick(108, 1080)):
+        rng = ctx.rng
+        cls = AR[i % len(AR)]
+        n = [1, 2, 3, 5][(i // len(AR)) % 4]
+        chk = Checker(rec, am)
+        names = [['charge', 'vel'], ['idx', 'tag'], ['stress', 'flag']][(i // 4) % 3]
+        spec = O.atoms_spec(rng, n, names, maxtype=3)
+        chk.ops = [dict(op=cls, natoms=n, spec=spec)]
+        label = 'reuse:' + cls
+        rec.case(('arguments', cls, n), nontrivial=True, fp=fingerprint(cls, n, spec))
+        rec.count('class:arguments:' + cls)
+        mine = {k: fresh(v) for k, v in spec.items()}          # the caller's own arrays
+        extra = {k: v for k, v in mine.items() if k not in ('atype', 'pos')}
+
+        def overwrite():
+            return sum(bool(scribble(v)) for v in mine.values())
+        try:
+            if cls in ('Atoms(safecopy)', 'Atoms(safecopy)-twice'):
+                a = am.Atoms(atype=mine['atype'], pos=mine['pos'], safecopy=True, **extra)
+                objs = [('atoms', a, build_matoms(spec))]
+                if cls.endswith('twice'):                      # edit the first, build the second from the same argument objects
+                    ma = objs[0][2]
+                    newpos = O.gen_value(rng, 'float', (3,), n)
+                    a.pos = newpos.copy()
+                    ma.set('pos', newpos)
+                    a.prop('atype', index=0, value=3)
+                    ma.write('atype', 0, 3)
+                    b = am.Atoms(atype=mine['atype'], pos=mine['pos'], safecopy=True, **extra)
+                    objs.append(('atoms', b, build_matoms(spec)))
+                rec.count('scribbled-arguments', overwrite())
+            elif cls == 'System(atoms,safecopy)':
+                a = build_atoms(am, spec)
+                s = am.System(atoms=a, safecopy=True)
+                newpos = O.gen_value(rng, 'float', (3,), n)
+                a.pos = newpos.copy()                          # the caller goes on editing its own Atoms ...
+                ma = build_matoms(spec)
+                ma.set('pos', newpos)
+                s.atoms.prop('atype', index=-1, value=4)       # ... and the System is edited too
+                ms = M.MSystem(build_matoms(spec), np.identity(3), np.zeros(3))
+                ms.atoms.write('atype', -1, 4)
+                objs = [('atoms', a, ma), ('system', s, ms)]
+            elif cls in ('prop(key,value)-new', 'atoms_prop(key,value)-new', 'view-existing'):
+                base = {k: v for k, v in spec.items() if k in ('atype', 'pos')}
+                a = build_atoms(am, base)
+                ma = build_matoms(base)
+                s = am.System(atoms=a)
+                if cls == 'view-existing':
+                    for k, v in extra.items():
+                        a.view[k] = np.zeros_like(v)
+                        ma.set(k, np.zeros_like(v))
+                for k, v in extra.items():
+                    if cls == 'prop(key,value)-new':
+                        a.prop(k, value=v)
+                    elif cls == 'atoms_prop(key,value)-new':
+                        s.atoms_prop(k, value=v)
+                    else:
+                        a.view[k] = v
+                    ma.set(k, spec[k])
+                rec.check(not any(shares(v, arrays_of(a)) for v in extra.values()),
+                          'the stored values do not share memory with the value handed in', f'{label}:argument-alias', ops=chk.ops)
+                rec.count('scribbled-arguments', overwrite())
+                objs = [('atoms', a, ma)]
+            elif cls == 'Atoms(lists)-twice':
+                lists = {k: v.tolist() for k, v in mine.items()}
+                a = am.Atoms(**lists)
+                a.pos = O.gen_value(rng, 'float', (3,), n)
+                ma = build_matoms(spec)
+                ma.set('pos', a.pos.copy())
+                b = am.Atoms(**lists)
+                rec.check(all(lists[k] == spec[k].tolist() for k in spec), 'the constructor leaves the lists handed in unchanged',
+                          f'{label}:operand', ops=chk.ops)
+                objs = [('atoms', a, ma), ('atoms', b, build_matoms(spec))]
+            elif cls == 'Atoms(prop=dict)-twice':
+                d = {k: v.tolist() for k, v in mine.items()}
+                a = am.Atoms(prop=d)
+                same = list(d) == list(spec)
+                rec.check(same, 'Atoms(prop=dict) leaves the dictionary handed in unchanged (the same call can be repeated)',
+                          'Atoms(prop=dict):operand', keys_left=list(d), keys_given=list(spec), ops=chk.ops)
+                objs = [('atoms', a, build_matoms(spec))]
+                if same:
+                    objs.append(('atoms', am.Atoms(prop=d), build_matoms(spec)))
+            elif cls == 'atoms_extend(safecopy)':
+                host = am.System(atoms=build_atoms(am, {k: v for k, v in spec.items() if k in ('atype', 'pos')}))
+                mhost = M.MSystem(build_matoms({k: v for k, v in spec.items() if k in ('atype', 'pos')}), np.identity(3), np.zeros(3))
+                o = am.Atoms(atype=mine['atype'], pos=mine['pos'], **extra)      # direct setting: o may hold the caller's arrays
+                r = host.atoms_extend(o, safecopy=True)
+                mr = mhost.atoms_extend(build_matoms(spec))
+                rec.check(not any(shares(y, arrays_of(o) + arrays_of(host) + list(mine.values())) for y in r.atoms.view.values()),
+                          'the new object does not share per-atom storage with the operands', f'{label}:alias', ops=chk.ops)
+                rec.count('scribbled-arguments', overwrite())
+                objs = [('system', r, mr), ('system', host, mhost)]
+        except Exception as ex:
+            import traceback
+            rec.fail('an in-domain operation must not raise', f'{label}:exception', exception=ex, where=traceback.format_exc()[-800:], ops=chk.ops)
+            continue
+        for typ, real, model in objs:
+            chk.ent(Ent(typ, real, model, cls), label, 'target')
+        rec.count('arguments:compared', len(objs))
 
     # constructor forms ------------------------------------------------------------
     CT = ['default', 'single-pos', 'scalar-atype', 'inferred-from-atype', 'inferred-from-pos', 'refuse-atype-pos-lengths',
@@ -974,12 +1388,33 @@ def run(ctx):
     rec.floor('class:atype_set:grow', 10)
     rec.floor('class:getitem:empty-result', 5)
     rec.floor('class:atoms_extend(scale):nadd!=nhost', 20)
+    rec.floor('pbc-alias:judged', 50)
     rec.floor('class:atoms_extend(scale):nadd==nhost', 5)
     rec.floor('class:extend:new-str-property', 20)
     rec.floor('observed:getitem-shares-storage', 50)
     rec.floor('observed:getitem-copies', 50)
     rec.floor('scribbled-results', 200)
     rec.floor('results-kept', 500)
+    # round 4: state leaking between instances, arguments reused by the caller, results kept by the caller, input forms
+    for path in O.ATOMS_PATHS + O.SYSTEM_PATHS:
+        rec.floor('class:default-path:' + path, 20)
+    for form in O.EDIT_FORMS:
+        rec.floor('class:default-edit:' + '/'.join(str(x) for x in form[:3]), 12)
+    rec.floor('defaults:in-place-edit-of-a-defaulted-property:natoms=1', 200)
+    rec.floor('defaults:in-place-edit-of-a-defaulted-property:natoms>1', 100)
+    rec.floor('defaults:witness-comparisons', 10000)
+    rec.floor('defaults:built-after-comparisons', 2000)
+    rec.floor('defaults:histories-completed', 300)
+    for c in AR:
+        rec.floor('class:arguments:' + c, 10)
+    rec.floor('arguments:compared', 100)
+    rec.floor('scribbled-arguments', 2000)
+    rec.floor('arguments-direct-setting-allowed', 20)
+    rec.floor('kept-results-rejudged', 20000)
+    rec.floor('repeated-reads', 500)
+    for g in ('list', 'tuple', 'ndarray', 'scalar', 'narrow:float32', 'narrow:int32', 'narrow:int16', 'narrow:int8'):
+        rec.floor('class:given:' + g, 20)
+    rec.floor('op:raw_write', 100)
     for lab in ('attr_set', 'view_set', 'prop_set', 'prop_write', 'setitem', 'prop(index,Atoms)', 'atoms_ix_set', 'atoms_ix_set(System)',
                 'atoms_prop(index,Atoms)', 'atoms_prop(index,Atoms,scale)', 'prop_atype', 'prop_atype(atype)', 'extend(int)', 'extend(Atoms)',
                 'getitem', 'atoms_ix_get', 'deepcopy(Atoms)', 'deepcopy(System)', 'df', 'atoms_df', 'atoms_df(scale)', 'atoms_prop_get',
